@@ -98,6 +98,7 @@ type World struct {
 	aborted  bool
 	stopOps  int
 	obsBusy  bool
+	jumping  bool
 }
 
 // Now returns simulated time since the start of the run.
@@ -361,6 +362,9 @@ func (w *World) Done() bool {
 	if w.aborted {
 		return true
 	}
+	if w.jumping {
+		return false
+	}
 	if w.phase < len(w.Plan.Phases) {
 		if w.phaseComplete() && w.pendingFuture() == 0 {
 			w.endPhase()
@@ -422,10 +426,9 @@ func (w *World) endPhase() {
 		w.phase++
 		if adv > 0 {
 			w.Fault("clock.jump")
-			ph := w.phase
-			w.phase = len(w.Plan.Phases) + 1000 // parked while the clock jumps
+			w.jumping = true // parked while the clock jumps
 			w.after(adv, "advance", func() {
-				w.phase = ph
+				w.jumping = false
 				w.startPhase()
 			})
 			return
